@@ -56,6 +56,7 @@ type c02wfModel struct {
 	Possible     []gcase.TaskJ   `json:"possible"`     // failing cases: every (node, input) submitted under some schedule
 	WF           *bool           `json:"wf"`           // the model's compiled runner satisfies DagWF (hypothesis of workflow_at_most_once)
 	WF2          *bool           `json:"wf2"`          // ... and DagWF2 (hypothesis of dag_enabled_nodes_start)
+	WF3          *bool           `json:"wf3"`          // ... and DagWF3 (hypothesis of the schedule-independence theorems)
 }
 
 // set once a scripted completion order could not be followed (each such run costs a 15 s
@@ -337,6 +338,7 @@ func c02wfOne(ctx *vh.Ctx, c *c02wfCase, specs []c02wfRunSpec) error {
 	wfHyp := model.WF != nil && *model.WF
 	ctx.Res.Dist(fmt.Sprintf("wf-hypothesis=%v", wfHyp))
 	ctx.Res.Dist(fmt.Sprintf("wf2-hypothesis=%v", model.WF2 != nil && *model.WF2))
+	ctx.Res.Dist(fmt.Sprintf("wf3-hypothesis=%v", model.WF3 != nil && *model.WF3))
 	for _, sp := range specs {
 		impl := c02wfCompare(ctx, c, model, sp)
 		if impl != nil && !wfHyp {
